@@ -1169,7 +1169,7 @@ REGEX_REWRITES = [
     ("R9_cmp_min", r"\bstd::cmp::min\(", "usize_min("),
     ("R9_cmp_min", r"(?<![\w:.])min\(", "usize_min("),
     # R13a: the split iterator of v1::parse_line -> prelude wrapper `Parts` (same separator closure, anchored)
-    ("R13_splitn_peekable", r"(\w+)\s*\.splitn\(\s*(\w+)\s*,\s*\|c\|\s*c\s*==\s*SEPARATOR\s*\|\|\s*c\s*==\s*CARRIAGE_RETURN\s*\)\s*\.peekable\(\)", r"Parts::new(\1, \2)"),
+    ("R13_splitn_peekable", r"(\w+)\s*\.splitn\(\s*(\w+)\s*,\s*\|c\|\s*c\s*==\s*(\w+)\s*\|\|\s*c\s*==\s*(\w+)\s*\)\s*\.peekable\(\)", r"Parts::new(\1, \2, \3, \4)"),
     # R14a: enum constructor used as a function value -> closure (Verus does not support constructor values)
     ("R14_ctor_as_fn", r"\.map_err\(\s*([A-Z]\w*::[A-Z]\w*)\s*\)", r".map_err(|e__| \1(e__))"),
     # R15: `x.iter().position(f)` -> prelude wrapper with the obvious specification
